@@ -1,5 +1,6 @@
 """C19 - extension registries behave as sets; runs do not leak state into later runs."""
 import json, multiprocessing as mp, os, random, shutil, sys
+from ..par import SafePool
 from concurrent.futures import ThreadPoolExecutor
 from typing import Protocol, runtime_checkable
 from ..common import Report, REPO
@@ -124,7 +125,26 @@ class World:
             elif f == 'remove_iface':
                 F.remove_contract_interface(IFACES[x])
             elif f == 'add_alias':
-                F.add_alias(*ALIASES[x])
+                a, opn = ALIASES[x]
+                if s == 'lower':           # the same alias, and the op name, spelled in lower / mixed case
+                    a, opn = a.lower(), opn[:4] + opn[4:].lower()
+                other = [opn2 for i, (a2, opn2) in ALIASES.items() if i != x][0]
+                was = F.opcode_aliases.get(ALIASES[x][0])
+                try:
+                    F.add_alias(a, opn if was is None else other)      # a refused add must not rebind the alias
+                finally:
+                    now = F.opcode_aliases.get(ALIASES[x][0])
+                    if was is not None and now != was:
+                        return 'ok', f'add_alias({a!r}) rebound the active alias {ALIASES[x][0]} from {was} to {now}'
+                    builtin = F.opcode_aliases.get('EQ')
+                    if builtin != 'OP_EQUAL':
+                        return 'ok', f'built-in alias EQ is now {builtin}'
+                if s == 'lower' and x == 1:       # a built-in alias in lower case is in use as well
+                    try:
+                        F.add_alias('eq', 'OP_DUP')
+                        return 'ok', 'add_alias("eq", ..) accepted although EQ is a built-in alias'
+                    except ValueError:
+                        pass
             elif f == 'run':
                 before = self.snapshot()
                 self.called = []
@@ -138,6 +158,19 @@ class World:
                     return 'ok', f"run used plugins {used} contracts {got_c} but active are {before}"
                 if cache != {'sigfield1': b'\xaa'} or contracts != {} or plugins != {}:
                     return 'ok', f'run modified the caller\'s dictionaries: {cache} {contracts} {plugins}'
+                # a caller cache that already carries a timestamp is still the caller's: a run that writes the cache
+                # (variables, b'P', the RETURN marker) must not touch it, and a second run must not see the first
+                cache2 = {'timestamp': 1_700_000_000, 'sigfield1': b'\xaa'}
+                from ..gen.progs import push as _push, op as _op, block as _block, b1 as _b1
+                s2 = (_push(b'\x01') + _op('WRITE_CACHE', _b1(1), b'k', _b1(1)) + _push(b'\x07') + _op('POP0')
+                      + _op('TRUE') + _block('IF', _op('RETURN')) + _push(b'\x03'))
+                s3 = _op('TRUE') + _block('IF', _op('TRUE')) + _push(b'\x05') + _push(b'\x06')
+                _, st1, _ = F.run_script(s2, cache2)
+                _, st2, _ = F.run_script(s3, cache2)
+                if st1.list() != [] or st2.list() != [b'\xff', b'\x05', b'\x06']:
+                    return 'ok', f'a run on a reused caller cache depends on the previous run: {st1.list()} {st2.list()}'
+                if cache2 != {'timestamp': 1_700_000_000, 'sigfield1': b'\xaa'}:
+                    return 'ok', f'run modified the caller\'s cache that carries a timestamp: {cache2}'
                 # every active plugin runs exactly once per plugin-running instruction: signature extensions
                 # before GET_MESSAGE and before CHECK_TEMPLATE (flag 10 default), check_template plugins once
                 cnt = {k: self.called.count(k) for k in set(self.called)}
@@ -219,7 +252,7 @@ def record_history(seed: int, n: int):
             elif f == 'reset_plugins':
                 c = {'f': f, 's': r.choice(['sx', 'ct']), 'x': 0}
             elif f in ('add_contract', 'remove_contract', 'add_iface', 'remove_iface', 'add_alias'):
-                c = {'f': f, 's': '', 'x': r.randrange(1, 3)}
+                c = {'f': f, 's': r.choice(['', 'lower']) if f == 'add_alias' else '', 'x': r.randrange(1, 3)}
             elif f in ('run', 'runauth'):
                 c = {'f': f, 's': '', 'x': 0}
             else:
@@ -260,7 +293,7 @@ def main(tier: str, seed: int) -> int:
         recs = [r for r in res.records if isinstance(r, dict) and 'call' in r]
         n = 14 * 4
         chunks = [recs[i::n] for i in range(n)]
-        with mp.get_context('fork').Pool(14) as pool:
+        with SafePool(14) as pool:
             outs = pool.map(_replay_chunk, chunks)
         seen = {}
         for ci, out in enumerate(outs):
@@ -282,7 +315,7 @@ def main(tier: str, seed: int) -> int:
     nh = 300 if quick else 5000
     jobs = [(seed * 100003 + i, 40) for i in range(nh)]
     chunks = [jobs[i::28] for i in range(28)]
-    with mp.get_context('fork').Pool(14) as pool:
+    with SafePool(14) as pool:
         hist = [hx for ch in pool.map(_record_chunk, chunks) for hx in ch]
     d = tlc.scratch_dir('registry')
     try:
